@@ -417,26 +417,34 @@ def h_short_bad_char(pos: int, ch: str) -> None:
         raise Violation(f"accepts-non-encoding :: {s!r} accepted but encodes back differently")
 
 
-def h_boundary(top: int, fill_hi: bool) -> None:
-    """22-character strings over the alphabet around the 2**128 boundary through the REAL functions (the most significant digit
-    is a choice variable, the next one is swept natively): ValueError, or a uuid that encodes back to the same string"""
+def h_boundary(top: int, fill_i: int) -> None:
+    """22-character strings over the alphabet through the REAL functions: `fill`*20 + x + y with fill from {lowest digit, highest
+    digit, 'a', 'F'} (so: values around 2**128, and strings made only of characters that are also hex digits); the most
+    significant digit is a choice variable, the next one is swept natively.  Both entry points: ValueError, or a uuid that
+    encodes back to the same string - and uuid_from_str accepts exactly what uuid_from_short_str accepts, with the same result"""
     from vf.xh import Violation, concrete, realize, reject_unless
     import ak.short_uuid as mod
     alphabet = list(mod._ALPHABET)
-    reject_unless(0 <= top < len(alphabet))
-    top, fill_hi = realize(top), realize(fill_hi)
+    fills = [alphabet[0], alphabet[-1], "a", "F"]
+    reject_unless(0 <= top < len(alphabet) and 0 <= fill_i < len(fills))
+    top, fill_i = realize(top), realize(fill_i)
     with concrete():
         for nxt in range(len(alphabet)):
-            s = (alphabet[-1] if fill_hi else alphabet[0]) * 20 + alphabet[nxt] + alphabet[top]
+            s = fills[fill_i] * 20 + alphabet[nxt] + alphabet[top]
+            res = []
             for fn in (mod.uuid_from_short_str, mod.uuid_from_str):
                 try:
                     u = fn(s)
                 except ValueError:
+                    res.append(None)
                     continue
                 except Exception as e:  # noqa
                     raise Violation(f"reject-{type(e).__name__} :: {fn.__name__}({s!r}) raises {type(e).__name__} instead of ValueError")
                 if mod.uuid_to_short_str(u) != s:
                     raise Violation(f"accepts-non-encoding :: {fn.__name__}({s!r}) accepted but encodes back differently")
+                res.append(u)
+            if res[0] != res[1]:
+                raise Violation(f"entry-points-differ :: uuid_from_short_str({s!r}) gives {res[0]!r} but uuid_from_str gives {res[1]!r}")
 
 
 def h_non_str(kind: int) -> None:
